@@ -122,14 +122,15 @@ V("C05", "update_mode_not_reset_on_error", "fire", "R05.a", (Z, """             
                     setattr(self_or_cls, tp, p._autotrigger_reset_value)
                     p._mode = 'set-reset'
 """))
-V("C05", "trigger_no_finally", "fire", "R05.a", (Z, """        self_._TRIGGER = True
-        try:
-            self_.update(dict(params, **triggers))
+V("C05", "trigger_no_finally", "fire", "R05.a", (Z, """                with _syncing(self_.self, param_names):
+                    self_.update(dict(params, **triggers))
         finally:
             self_._TRIGGER = False
             self_._events += events
-""", """        self_._TRIGGER = True
-        self_.update(dict(params, **triggers))
+""", """                with _syncing(self_.self, param_names):
+                    self_.update(dict(params, **triggers))
+        except ZeroDivisionError:
+            pass
         if True:
             self_._TRIGGER = False
             self_._events += events
@@ -1367,3 +1368,18 @@ V("C19", "time_sampled_restores_shifted_time", "fire", "R19.e", (N, """        w
         value = self.fn()
         t(current_time - self.offset)
         return value"""))
+V("C08", "trigger_writes_back_outside_syncing", "fire", "R08.g", (Z, """                with _syncing(self_.self, param_names):
+                    self_.update(dict(params, **triggers))""", """                if True:
+                    self_.update(dict(params, **triggers))"""))
+V("C17", "setstate_recreates_watcher_per_list", "fire", "R17.i", (Z, """                        if id(watcher) in recreated:
+                            new_watchers.append(recreated[id(watcher)])
+                            continue
+""", ""))
+V("C17", "benign_setstate_memo_keyed_by_get", "benign", None, (Z, """                        if id(watcher) in recreated:
+                            new_watchers.append(recreated[id(watcher)])
+                            continue
+""", """                        again = recreated.get(id(watcher))
+                        if again is not None:
+                            new_watchers.append(again)
+                            continue
+"""))
